@@ -325,6 +325,15 @@ pub fn run_c19(ctx: &mut Ctx) {
                 lines.insert(at, l);
             }
         }
+        // spacing diacritics inside words: their compatibility decomposition starts with a space, so cleaning before
+        // and after the normalisation are different things
+        if i % 7 == 4 {
+            let w = ["a\u{b4}b", "a\u{a8}b", "b\u{b8}", "ab\u{2dd}a"][ctx.rng.random_range(0..4)];
+            for _ in 0..ctx.rng.random_range(1..=3) {
+                let at = ctx.rng.random_range(0..=lines.len());
+                lines.insert(at, if ctx.rng.random_bool(0.5) { w.to_string() } else { format!("ab {w} {w}") });
+            }
+        }
         // lines that are not valid UTF-8 (skipped by the reader, but counted by max_lines_per_file)
         let undecodable = i % 5 == 2;
         if undecodable {
